@@ -5,7 +5,7 @@ CONSTANTS
   StmtDepth = 1
   Effects = FALSE
   Quirks = FALSE
-  EnvCap = 16
+  EnvCap = 8
   RetTypes <- MC_RetInt
 INVARIANTS Emit
 CHECK_DEADLOCK FALSE
